@@ -39,7 +39,7 @@ class DirectFirmware:
 
     def receive(self, line):
         self.wire.append(line)
-        if line == "G4 P0" or line.startswith("N"):
+        if line == "G4 P0" or line.startswith("N") or line.startswith("M110"):
             return self._out([("ok", ("hs", line))])
         k = len(self.user)
         self.user.append(line)
@@ -67,7 +67,7 @@ class DirectFirmware:
 def run_execution(cfg, prefix, record=False):
     stmts = cfg["statements"]
     fw = DirectFirmware(cfg["behaviours"], greeting=cfg["greeting"])
-    script = {}
+    script = {"flow_control": cfg.get("mode", "serial") == "socket"}
     if "loss" in cfg["behaviours"]:
         # the connection drops when the k-th user statement is written: count handshake writes at run time
         script["loss_mode"] = cfg.get("loss_mode", "error")
@@ -78,7 +78,7 @@ def run_execution(cfg, prefix, record=False):
         real_receive = fw.receive
 
         def receive(line):
-            if not (line == "G4 P0" or line.startswith("N")) and len(fw.user) == kloss:
+            if not (line == "G4 P0" or line.startswith("N") or line.startswith("M110")) and len(fw.user) == kloss:
                 fw.wire.append(line)
                 fw.user.append(line)
                 ex.dev.lost = True
@@ -92,7 +92,10 @@ def run_execution(cfg, prefix, record=False):
 
     def body():
         sleep = ex.shims.time.sleep
-        w = PW.PrintrunWriter("serial", "localhost", "fake", 115200)
+        if cfg.get("mode", "serial") == "socket":
+            w = PW.PrintrunWriter("socket", "localhost", "8000", 0)
+        else:
+            w = PW.PrintrunWriter("serial", "localhost", "fake", 115200)
         marks["writer"] = w
         try:
             w.connect()
@@ -319,6 +322,10 @@ def plan(tier):
                 items.append((c, 1, None))
         for c in cfgs(three, ("report+ok", "ok", "report-in-ok"), ("Q",), (None, "start"), (False, True), False):
             items.append((c, 2, 20000))
+        # socket writer (device with flow control): same contract
+        for behs in (("ok", "report+ok"), ("error", "report-in-ok"), ("status+ok", "loss"), ("Error+ok", "ok")):
+            for c in cfgs(two, behs, ("Q", "L"), (None,), (False, True), True):
+                items.append(({**c, "mode": "socket"}, 1 if behs[0] == "ok" else 0, None))
     else:
         for behs in itertools.product(BEHAVIOURS, repeat=3):
             if behs.count("loss") > 1:
@@ -335,6 +342,13 @@ def plan(tier):
         for behs in (("report+ok", "ok"), ("ok", "error"), ("status+ok", "report-in-ok"), ("ok", "loss")):
             for c in cfgs(two, behs, ("Q", "L"), (None,), (False, True), False):
                 items.append((c, 2, 60000))
+        for behs in itertools.product(BEHAVIOURS, repeat=2):
+            if behs.count("loss") > 1:
+                continue
+            for c in cfgs(two, behs, ("Q", "L"), (None,), (False, True), True):
+                items.append(({**c, "mode": "socket"}, 0, None))
+            for c in cfgs(two, behs, ("Q",), (None,), (False,), False):
+                items.append(({**c, "mode": "socket"}, 1, None))
         for loss_mode in ("eof",):
             for behs in (("loss", "ok"), ("ok", "loss")):
                 for c in cfgs(two, behs, ("Q", "L"), (None,), (False,), True):
